@@ -106,7 +106,7 @@ func (b *builder) build(name string) (*variant, error) {
 	// buffer sizes, so that correctness never silently depends on one
 	// configuration (a refill boundary every 16 / 96 bytes instead of 512)
 	knob := 0
-	if i := strings.Index(name, "-b"); i >= 0 {
+	if i := strings.Index(name, "-b"); i >= 0 && !strings.HasSuffix(name, "-pop") {
 		fmt.Sscanf(name[i+2:], "%d", &knob)
 		srcKind = fmt.Sprintf("plain-b%d", knob)
 	}
@@ -153,6 +153,10 @@ func (b *builder) build(name string) (*variant, error) {
 	tags := "verif"
 	if inst {
 		tags += ",verifinst"
+	}
+	if strings.HasSuffix(name, "-pop") {
+		// another population of types in the worker binary (C14): see gen_pop.py
+		tags += ",verifpop"
 	}
 	args = append(args, "-tags", tags)
 	if strings.Contains(name, "race") {
